@@ -71,6 +71,9 @@ def check(ctx):
         for o, a in produce(ctx, "d4", ["-mode", "d4", "-seed", ctx.seed] + full, shards):
             runner.run_job(ctx, _job(ctx, "d4", o, a))
             paths.append(o)
+        # whole DHCPv4 chains of real plugins (Conv): OFFER for DISCOVER, ACK/NAK for REQUEST, whatever address the client asks for
+        from . import fam_conv
+        extra.update(fam_conv.run(ctx, design=False))
         extra["replies"] = _count(paths, lambda e: e["ev"] == "d4" and e["out"]["sent"])
         extra["non_requests"] = _count(paths, lambda e: e["ev"] == "d4" and (e["in"]["op"] != 1 or e["in"]["mt"] not in (1, 3)))
         extra["unparseable"] = _count(paths, lambda e: e["ev"] == "d4" and not e["parsed"])
@@ -108,6 +111,9 @@ def check(ctx):
         for o, a in produce(ctx, "d6", ["-mode", "d6", "-seed", ctx.seed] + full, shards):
             runner.run_job(ctx, _job(ctx, "d6", o, a))
             paths.append(o)
+        # the real receive loop under a burst of clients (real sockets): every reply goes back to ITS source address and port
+        from . import fam_life
+        extra.update(fam_life.sockets_job(ctx)[1])
         # whole DHCPv6 chains of real plugins (Conv6): ADVERTISE for SOLICIT, REPLY otherwise, nothing for DECLINE
         from . import fam_conv
         extra.update(fam_conv.run6(ctx))
@@ -193,6 +199,13 @@ def replay(ctx, path):
     if meta.get("family") == "conv6":
         from . import fam_conv
         return fam_conv.replay6(ctx, path)
+    if meta.get("family") == "lifecycle" and meta.get("job") == "sockets":
+        def relife(ctx2, scenario, out):
+            core.run_harness(ctx2.need_harness(), ["lifecycle", "-seed", meta.get("seed", 1), "-out", out], ctx2.scratch.sub("relife"), timeout=600)
+        return runner.replay_dir(ctx, path, runner.TraceJob("replay", "LifecycleTrace", None, {"Lens": core.tla_set([ctx.prop])}, replay=relife, boundary=lambda e: False))
+    if meta.get("family") == "conv":
+        from . import fam_conv
+        return fam_conv.replay(ctx, path)
     args = meta.get("rerun_args")
     if not args:
         raise Infra("replay meta has no rerun_args")
